@@ -563,6 +563,25 @@ fn exec_cfg<C: Ws>(t: &RangeTrace, ctx: &mut Ctx, skip_inspect: bool) -> Result<
                 if ctx.any(&["C02", "C06", "C08"]) && (enc.raw() != raw || enc.state() != st) {
                     viol!(ctx, ctx.prop, "range-encoder-changed-by-reassembly", "{:?} -> {:?}", raw, enc.raw());
                 }
+                // a copy made with `clone_from` into an unrelated encoder is the same encoder
+                if message.len() & 1 == 1 {
+                    macro_rules! cf {
+                        ($c:expr, $fresh:expr) => {{
+                            let mut target = $fresh;
+                            target.clone_from(&*$c);
+                            *$c = target;
+                            ctx.stats.hit("op-clone-from");
+                        }};
+                    }
+                    match &mut enc {
+                        Enc::V(c) => cf!(c, RangeEncoder::<C::W, C::S, Vec<C::W>>::with_backend(vec![C::W::default(); 3])),
+                        Enc::Sm(c) => cf!(c, RangeEncoder::<C::W, C::S, SmallVec<[C::W; 4]>>::with_backend(SmallVec::new())),
+                        _ => {}
+                    }
+                    if ctx.any(&["C02", "C06", "C08"]) && (enc.raw() != raw || enc.state() != st) {
+                        viol!(ctx, ctx.prop, "range-encoder-changed-by-clone-from", "{:?} -> {:?}", raw, enc.raw());
+                    }
+                }
             }
             RangeOp::Clear => {
                 let Enc::V(c) = &mut enc else { ctx.stats.hit("skipped-op"); continue };
@@ -718,8 +737,30 @@ fn exec_cfg<C: Ws>(t: &RangeTrace, ctx: &mut Ctx, skip_inspect: bool) -> Result<
     macro_rules! consume {
         ($d:expr, $exact_backend:expr, $what:expr) => {{
             let mut d = $d;
+            // symbols already obtained through a batch decode (`decode_symbols`,
+            // `try_decode_symbols`, `decode_iid_symbols`), to be checked one by one below
+            let mut ahead: std::collections::VecDeque<DecRes> = Default::default();
             for (k, (sym, b)) in decs.iter().enumerate() {
-                if t.reassemble_at.contains(&k) {
+                if ahead.is_empty() && (k + decs.len()) % 3 == 0 {
+                    // a run of up to 4 symbols whose models share (Probability, PRECISION)
+                    let mut r = 1;
+                    while r < 4 && k + r < decs.len() && decs[k + r].1.pb == b.pb && decs[k + r].1.p == b.p && !t.reassemble_at.contains(&(k + r)) { r += 1; }
+                    if r >= 2 && !t.reassemble_at.contains(&k) {
+                        let ms: Vec<&Built> = decs[k..k + r].iter().map(|(_, m)| *m).collect();
+                        let same = ms.iter().all(|m| std::ptr::eq(*m, ms[0]));
+                        let form = match (k / 3) % 3 { 0 => crate::dynops::DecForm::Symbols, 1 => crate::dynops::DecForm::Try, _ => if same { crate::dynops::DecForm::Iid } else { crate::dynops::DecForm::Symbols } };
+                        ctx.stats.hit(&format!("op-dec-batch-{:?}", form));
+                        ahead = <C::W as WordOps>::dec_batch(&mut d, form, &ms, None).into();
+                        if ahead.len() != r {
+                            // (a pseudo error appended by the size-hint observation, or a wrong item count)
+                            if ctx.any(&props_rt) {
+                                viol!(ctx, ctx.prop, "range-batch-decode-shape", "{}: batch decode ({:?}) of {} symbols returned {:?}", $what, form, r, ahead);
+                            }
+                            return Ok(log);
+                        }
+                    }
+                }
+                if t.reassemble_at.contains(&k) && ahead.is_empty() {
                     // a decoder taken apart between two symbols and put together again is the same decoder
                     let (bulk, state, point) = d.into_raw_parts();
                     ctx.stats.hit("op-decoder-reassembled");
@@ -733,7 +774,7 @@ fn exec_cfg<C: Ws>(t: &RangeTrace, ctx: &mut Ctx, skip_inspect: bool) -> Result<
                         }
                     };
                 }
-                let got = <C::W as WordOps>::dec(&mut d, b);
+                let got = match ahead.pop_front() { Some(g) => g, None => <C::W as WordOps>::dec(&mut d, b) };
                 if let DecRes::Ok(s) = got { log.decoded.push(s); }
                 ctx.stats.hit("op-dec");
                 if got != DecRes::Ok(*sym) {
@@ -794,12 +835,38 @@ fn exec_cfg<C: Ws>(t: &RangeTrace, ctx: &mut Ctx, skip_inspect: bool) -> Result<
             let it = stored_w[start..].to_vec().into_iter().map(Ok::<C::W, ()>);
             if stored_w.len() & 1 == 1 {
                 // a stream without a usable size hint (file, socket, `iter::from_fn`)
-                let mut it = it;
-                let opaque = std::iter::from_fn(move || it.next());
+                let _ = it;
+                // ... that is not fused either: it carries two frames (this message twice), each
+                // followed by one end-of-data. The adapter documents that it fuses its source, so
+                // a decoder on the first frame must never reach into the second one, and a
+                // second decoder started on the same source afterwards must find its frame intact.
+                let frame: Vec<C::W> = stored_w[start..].to_vec();
+                let n = frame.len();
+                let pos = std::cell::Cell::new(0usize);
+                let mut src = std::iter::from_fn(|| {
+                    let i = pos.get();
+                    let r = if i < n { Some(Ok::<C::W, ()>(frame[i])) } else if i == n { None } else if i <= 2 * n { Some(Ok(frame[i - n - 1])) } else { None };
+                    if i <= 2 * n + 1 { pos.set(i + 1); }
+                    r
+                });
                 ctx.stats.hit("probe-iterator-without-size-hint");
-                match RangeDecoder::<C::W, C::S, _>::with_backend(FallibleIteratorReadWords::new(opaque)) {
-                    Ok(d) => consume!(d, false, "FallibleIteratorReadWords(from_fn)"),
+                match RangeDecoder::<C::W, C::S, _>::with_backend(FallibleIteratorReadWords::new(src.by_ref())) {
+                    Ok(d) => consume!(d, false, "FallibleIteratorReadWords(from_fn, frame 1)"),
                     Err(()) => {}
+                }
+                // (only when the first decoder certainly ran to the end of its frame: the whole
+                // message was decoded and nothing was appended to it)
+                if n > 0 && suffix_len == 0 && full {
+                    // the reader of the framing skips the end-of-frame mark if the first decoder
+                    // stopped exactly in front of it
+                    if pos.get() == n { pos.set(n + 1); }
+                    if pos.get() != n + 1 && ctx.any(&["C02", "C17"]) {
+                        viol!(ctx, ctx.prop, "range-decoder-read-into-next-frame", "after decoding frame 1 ({} words) through the iterator adapter the source stands at word {} (the adapter must stop at the first end-of-data)", n, pos.get());
+                    }
+                    match RangeDecoder::<C::W, C::S, _>::with_backend(FallibleIteratorReadWords::new(src.by_ref())) {
+                        Ok(d) => consume!(d, false, "FallibleIteratorReadWords(from_fn, frame 2 of the same source)"),
+                        Err(()) => {}
+                    }
                 }
             } else {
                 match RangeDecoder::<C::W, C::S, _>::with_backend(FallibleIteratorReadWords::new(it)) {
@@ -843,6 +910,8 @@ fn exec_cfg<C: Ws>(t: &RangeTrace, ctx: &mut Ctx, skip_inspect: bool) -> Result<
                 let mut all: Vec<&Snap> = snaps.iter().collect();
                 if let Some(e) = end_snap.as_ref() { all.push(e); }
                 let n_all = all.len();
+                // index of the next symbol the decoder stands in front of (after the last seek)
+                let mut cur: Option<usize> = None;
                 for (si, n) in t.seeks.iter() {
                     let s = all[*si % n_all];
                     let state = constriction::stream::queue::RangeCoderState::<C::W, C::S>::new(s_from(s.lower), s_from(s.range)).expect("valid state");
@@ -864,12 +933,22 @@ fn exec_cfg<C: Ws>(t: &RangeTrace, ctx: &mut Ctx, skip_inspect: bool) -> Result<
                             viol!(ctx, "C07", "range-seek-wrong-symbol", "after seek to snapshot at symbol {} (pos {}, inverted {}): symbol {}: got {:?} expected {}", s.at, s.pos, s.inverted, k, got, sym);
                         }
                     }
+                    cur = Some((s.at + *n).min(decs.len()).max(s.at.min(decs.len())));
                 }
                 // positions beyond the data are refused
                 let state = constriction::stream::queue::RangeCoderState::<C::W, C::S>::default();
                 ctx.stats.hit("fault-seek-beyond");
                 if d.seek((stored_w.len() + 1, state)).is_ok() {
                     viol!(ctx, "C07", "range-seek-beyond-data-accepted", "pos {} with {} words", stored_w.len() + 1, stored_w.len());
+                }
+                // a refused seek leaves the decoder where it was: decoding simply goes on
+                if let Some(c) = cur {
+                    for (k, (sym, b)) in decs.iter().enumerate().skip(c).take(2) {
+                        let got = <C::W as WordOps>::dec(&mut d, b);
+                        if got != DecRes::Ok(*sym) {
+                            viol!(ctx, "C07", "range-wrong-symbol-after-refused-seek", "symbol {}: got {:?} expected {}", k, got, sym);
+                        }
+                    }
                 }
             }};
         }
